@@ -404,7 +404,10 @@ def boundary_cases(ctx: Ctx) -> list[dict]:
     (point, source) pairs from its 3x3 grid of corners / side midpoints / centre plus the 8 surrounding outside positions
     and the 4 points on the diagonals through the centre (ties of the closest snap) - all exactly representable"""
     cases = []
-    scales = [F(1, 1024), F(1), F(1024)] + ([F(1, 2**20), F(2**20)] if ctx.thorough else [])
+    # (the smallest scale was 2^-20 until /repo 47523e4: a box of 2e-6 px is smaller than the absolute tolerance 1e-6 the code has had in its
+    # closing assertion since d4d6819 and in its containment test since 47523e4 - lattice points then fall INTO the band; 1e-6 px is the code's
+    # resolution by design, the lattice stays above it)
+    scales = [F(1, 1024), F(1), F(1024)] + ([F(1, 2**16), F(2**20)] if ctx.thorough else [])
     offsets = [F(0), F(-(2**20))] + ([F(2**20), F(2**30)] if ctx.thorough else [])
     for m in scales:
         for o in offsets:
